@@ -5,7 +5,8 @@ Import ListNotations.
 
 Inductive sverdict' := SPanic | SV (v : sverdict).
 Coercion SV : sverdict >-> sverdict'.
-(* expectation: 0 = must be accepted, 1 = must be rejected, 2 = no expectation (cache interplay: model decides) *)
+(* expectation: 0 = must be accepted, 1 = must be rejected, 2 = no expectation (cache interplay: model decides),
+   3 = must be reported as equivocation (a validly signed commitment differing from the cached, validly signed one) *)
 Inductive c12case := C12 (id : N) (w : wshred_s) (cached : option string) (expect : N) (impl : sverdict')
 with wshred_s := mkW (slot slice : N) (last : bool) (index : N) (data : string) (path : list string)
                      (is_data by_leader : bool) (sig_msg : string).
@@ -24,6 +25,7 @@ Definition run_c12 (c : c12case) : list (N * N * N) :=
                               (match expect, r with
                                | 0%N, SOk => 0 | 0%N, _ => 2
                                | 1%N, SOk => 2 | 1%N, _ => 0
+                               | 3%N, SEquivocation => 0 | 3%N, _ => 2
                                | _, _ => 0 end)%N
               end in
     if N.eqb fl 0 then [] else [(id, 0%N, fl)]
